@@ -13,7 +13,8 @@
 (*   Stable     Write(Parse(In(D))) = Out(D) byte for byte, and Write(Parse(Out(D))) = Out(D)                        *)
 (*   Rejects    every structured mutation m of In(D) has the verdict Verdict(D, m) in {syntax, grammar, content}     *)
 (*              (the documented Xml::SyntaxError / GrammarError / ContentError, with the line number the error is    *)
-(*              reported for where the spec fixes it), or "ok" with the document D' the mutated text denotes         *)
+(*              reported for where the spec fixes it), "reject" (any of them or MeshNodeLinkerError, for violations  *)
+(*              that need the whole file set), or "ok" with the document D' the mutated text denotes                 *)
 (*   Total      no other outcome (crash, hang, sanitizer report, undocumented exception) exists in the spec           *)
 (* The verdict is derived from the format description: counted blocks (size attributes), mandatory attributes,       *)
 (* index ranges, nesting.  Lines are structured records so that mutations are structural.                            *)
@@ -412,12 +413,24 @@ Mutations(D) ==
                      : i \in DataIn("Patch"), s \in {"-1"}} \cup
                   {M("patch_index_range", "rep", i, RepTok(i, 1, IStr(D.ptns[PtnAt(i)].ne)), "content", i) : i \in DataIn("Patch")} \cup
                   {M("patch_rank_range", "rep", i, R(SetAttr(L[i], "rank", IStr(D.ptns[PtnAt(i)].np))), "content", i) : i \in DimLines("Patch")}
-      \* a Mapping entry is an index of a root mesh entity of that dimension (dimension 0: a vertex index)
+      \* a Mapping entry is an index of a root mesh entity of that dimension (dimension 0: a vertex index).  The root mesh
+      \* may come from another file of a multi-file set, so the range can only be checked once everything is read:
+      \* verdict "reject" = any documented rejection (Xml error or Geometry::MeshNodeLinkerError)
       ParentCount(e) == IF e = 0 THEN nv ELSE Len(D.topo[e])
       MapIdx == UNION {LET e == CHOOSE e \in 0..Dim : GetAttr(L[EnclIdx(i)], "dim") = IStr(e)
                            par == GetAttr(L[EnclIdx(EnclIdx(i))], "topology") = "parent" IN
-                         {M(IF par THEN "mapping_index_range_parent" ELSE "mapping_index_range", "rep", i, RepTok(i, 1, s), "content", 0)
+                         {M(IF par THEN "mapping_index_range_parent" ELSE "mapping_index_range", "rep", i, RepTok(i, 1, s), "reject", 0)
                             : s \in {IStr(ParentCount(e)), "-1"}} : i \in DataIn("Mapping")}
+
+      \* topology="parent": the topology is the parent's, renumbered by the part's vertex mapping -- every vertex of a
+      \* mapped entity has to be in the Mapping of dimension 0.  Replace one entry by a (valid) vertex the part does not
+      \* contain: the document is inconsistent and has to be rejected
+      MapMissing == UNION {LET o == EnclIdx(i)
+                               p == D.parts[PartAt(i)]
+                               free == (0..(nv - 1)) \ TRange(p.map[1]) IN
+                             IF GetAttr(L[o], "dim") = "0" /\ GetAttr(L[EnclIdx(o)], "topology") = "parent" /\ free # {}
+                             THEN {M("mapping_vertex_missing_parent", "rep", i, RepTok(i, 1, IStr(CHOOSE v \in free : \A w \in free : v <= w)), "reject", 0)}
+                             ELSE {} : i \in DataIn("Mapping")}
 
       \* malformed numbers / token counts
       MultiTok == DataIn("Vertices") \cup DataIn("Topology") \cup DataIn("Attribute")
@@ -434,7 +447,7 @@ Mutations(D) ==
                     : i \in DataIn("Topology"), t \in {1}}
   IN Trunc \cup DelData \cup DupData \cup DelOpen \cup DelLeaf \cup DelClose \cup Unknown \cup Unbal \cup Stray
      \cup MissAttr \cup ExtraAttr \cup ClosedMk \cup Counts \cup SizeLen \cup TopoDim \cup MapDim \cup AttrDim
-     \cup MeshType \cup RootType \cup PartAttr \cup TopoIdx \cup PatchIdx \cup MapIdx \cup Tokens \cup Garbage
+     \cup MeshType \cup RootType \cup PartAttr \cup TopoIdx \cup PatchIdx \cup MapIdx \cup MapMissing \cup Tokens \cup Garbage
 
 \* ---------------------------------------------------------------------------------------------------------------------
 \* behaviours: pick a document; (optionally) pick one mutation of it
@@ -487,7 +500,7 @@ Balanced(L) == /\ L[1].k = "open" /\ L[Len(L)].k = "close" /\ L[1].lvl = 0 /\ L[
 GrammarSane == Balanced(Lines(doc, TRUE)) /\ Balanced(Lines(doc, FALSE))
                /\ ((\A p \in 1..Len(doc.parts) : ~doc.parts[p].par) => Lines(doc, TRUE) = Lines(doc, FALSE))
 \* every mutation really changes the text and has a verdict
-MutSane == ph = "mut" => mut.v \in {"ok", "syntax", "grammar", "content"} /\ (mut.op # "trunc" => mut.at >= 1)
+MutSane == ph = "mut" => mut.v \in {"ok", "syntax", "grammar", "content", "reject"} /\ (mut.op # "trunc" => mut.at >= 1)
 
 \* ---- emission ----------------------------------------------------------------------------------------------------------------
 Proj(D) == [fam |-> Fam, dim |-> Dim, verts |-> D.verts, topo |-> D.topo, charts |-> D.charts,
